@@ -309,3 +309,21 @@ pub(crate) fn ref_shr<const W: usize>(x: &[u64], digits: usize, bits: u32) -> ([
     }
     (out, sticky)
 }
+
+/// stub for `Vec::with_capacity(n)`: SOUND (capacity >= n always holds) but with a concrete allocation size in the
+/// common case n <= 64, which is what keeps the solver's memory model small; the exact capacity is unobservable.
+pub(crate) fn vec_with_capacity_64<T>(n: usize) -> Vec<T> {
+    if n <= 64 {
+        Vec::with_capacity_in(64, alloc::alloc::Global)
+    } else {
+        Vec::with_capacity_in(n, alloc::alloc::Global)
+    }
+}
+
+/// stub for `Vec::with_capacity(n)` that drops the hint entirely (empty vector growing on demand). Only valid for callers
+/// that fill the vector through push/extend/insert (never through `set_len`/raw writes) - true for every use inside
+/// num-bigint (checked by reading; a caller relying on the capacity would show up as a pointer-check failure, not be masked).
+/// NOT applied where std's own `collect()` is on the path (it writes the first element through a raw pointer).
+pub(crate) fn vec_with_capacity_ignored<T>(_n: usize) -> Vec<T> {
+    Vec::new()
+}
